@@ -103,6 +103,7 @@ def gen_name(rnd, ctx):
 def gen_case(rnd, ctx, maxmut):
     npool = 18
     items = gen_name(rnd, ctx)
+    deferred = rnd.random() < 0.25      # on_trait_change(..., deferred=True): registered before anything is populated
     sh = c08.Shadow(npool)
     used = [0]
     attached = {0}
@@ -167,8 +168,25 @@ def gen_case(rnd, ctx, maxmut):
         kind, cur = sh.kind[c], sh.items[c]
         n = len(cur)
         if kind == 6:
-            meth = rnd.choice(["append", "insert", "pop", "setitem", "delitem", "clear", "extend", "remove"])
-            if meth in ("append", "insert", "setitem", "extend"):
+            meth = rnd.choice(["append", "insert", "pop", "setitem", "delitem", "clear", "extend", "remove",
+                               "reverse", "sort", "permute"])
+            if meth in ("reverse", "sort", "permute"):
+                # in-place reorder: the same objects are removed and added by one mutation
+                if n < 2:
+                    return None
+                if meth == "reverse":
+                    new, args = cur[::-1], []
+                elif meth == "sort":
+                    new, args = sorted(cur), []
+                    if new == cur:
+                        return None
+                else:
+                    new = list(cur)
+                    rnd.shuffle(new)
+                    args = [0, n, new]
+                    meth = "setslice"
+                sp = [0, n, new]
+            elif meth in ("append", "insert", "setitem", "extend"):
                 v = fresh()
                 if v is None:
                     return None
@@ -202,9 +220,21 @@ def gen_case(rnd, ctx, maxmut):
             i, k, vs = sp
             sh.items[c] = cur[:i] + list(vs) + cur[i + k:]
         elif kind == 7:
-            meth = rnd.choice(["setitem", "setitem", "delitem", "clear"])
+            meth = rnd.choice(["setitem", "setitem", "delitem", "clear", "update2"])
             keys = [a[0] for a in cur]
-            if meth == "setitem":
+            if meth == "update2":
+                # one update() that replaces the value of the last key and adds a new key
+                free = [k for k in ("a", "b", "c", "d") if k not in keys]
+                if not n or not free:
+                    return None
+                v, v2 = fresh(), fresh()
+                if v is None or v2 is None:
+                    return None
+                sp = [n - 1, 1, [v, v2]]
+                args = [keys[-1], v, free[0], v2]
+                cur[-1] = [keys[-1], v]
+                cur.append([free[0], v2])
+            elif meth == "setitem":
                 v = fresh()
                 if v is None:
                     return None
@@ -254,6 +284,8 @@ def gen_case(rnd, ctx, maxmut):
             ops.append(["Probe", o])
         ctx.count("op:Probe", len(used))
 
+    if deferred:
+        add(["Reg"])
     # a path along the name (most of the time), so that the walk reaches the final attribute
     if rnd.random() < 0.75:
         frontier = [0]
@@ -286,11 +318,12 @@ def gen_case(rnd, ctx, maxmut):
         if m:
             add(m)
             refresh()
-    add(["Reg"])
+    if not deferred:
+        add(["Reg"])
     probes()
     registered = True
     for _ in range(rnd.randint(1, maxmut)):
-        if registered and rnd.random() < 0.06:
+        if registered and rnd.random() < (0.15 if deferred else 0.06):
             add(["Unreg"])
             registered = False
             probes()
@@ -307,7 +340,10 @@ def gen_case(rnd, ctx, maxmut):
     ctx.count("name:%d-items%s" % (len(items), "/bracket" if any(len(n) > 1 for n, _ in items) else ""))
     ctx.count("name-final:" + ",".join(NAME[f] for f in items[-1][0]))
     ctx.count("history-length:%03d" % (10 * (len(ops) // 10)))
-    return dict(npool=npool, root=0, items=items, legacy=legacy_text(items), graphs=l2g(items), ops=ops)
+    if deferred:
+        ctx.count("registration:deferred")
+    return dict(npool=npool, root=0, items=items, legacy=legacy_text(items), graphs=l2g(items), ops=ops,
+                deferred=deferred)
 
 
 def corpus():
